@@ -378,7 +378,7 @@ func TestVerif_C14_Server(t *testing.T) {
 	const P = "C14"
 	r := vk.Start(t, "c14_server", "exploration", P)
 	defer r.Finish()
-	depth := r.Pick(7, 9)
+	depth := r.Pick(7, 10)
 	r.Rule(P, fmt.Sprintf("server side: every event history of length %d (oracle after every event) over {client HEADERS opening the next stream (<=%d, every second one with END_STREAM), Drain(\"\"), client PING-ACK answering the server's latest PING, advance 5 s of virtual time, handler finishes the k-th accepted stream with WriteStatus(code 3+k), client RST_STREAM on the k-th open stream}, inapplicable events pruned; real http2Server (NewServerTransport + HandleStreams + Close as server.go does) against a scripted raw client, one synctest bubble per history; non-trivial = Drain was called and the final GOAWAY was observed with at least one stream accepted", depth, c14SrvMaxStreams))
 	r.Assume(P, "graceful drain is gRPC's two-phase protocol: first GOAWAY(2^31-1) + PING, final GOAWAY after the PING ack or 5 s")
 	r.Assume(P, "all client HEADERS are well-formed gRPC requests and MaxStreams is unlimited, so 'accepted' = handed to the stream handler")
@@ -417,6 +417,7 @@ func TestVerif_C14_Server(t *testing.T) {
 
 	const prefixDepth = 3
 	var hist, steps int64
+	nsamp := 0
 	capped := false
 	var prefixes [][]int
 	po := &c14Odo{}
@@ -452,7 +453,8 @@ outer:
 			r.Outcome(P, "server: "+res.outcome)
 			if res.finalSeen && res.acceptedBeforeFinal > 0 {
 				r.Nontrivial(P, "server|"+strings.Join(res.events, ","))
-				if res.servedAfterFinal > 0 && res.acceptedBetween > 0 {
+				if nsamp < 1 && res.servedAfterFinal > 0 && res.acceptedBetween > 0 {
+					nsamp++
 					r.Sample(P, map[string]any{"side": "server", "history": res.events, "server_frames": res.log, "outcome": res.outcome})
 				}
 			}
